@@ -53,10 +53,10 @@ def gen_family(f, workers=4, timeout=1500):
     r = core.run_tlc("EEMSCases", cfg, workers=workers, timeout=timeout, dump=dump)
     f.tlc = r
     if r.error or r.rc != 0:
-        if r.violated:
-            sys.stderr.write("MACHINERY FAILURE: law %s does not hold on the specification (%s)\n%s\n" % (r.violated, f.tag, r.out[-3000:]))
-            sys.exit(2)
-        core.tlc_fail(r, "EEMSCases " + f.tag)
+        # (this runs in a thread: the failure is raised by gen_families after the join)
+        f.failed = ("law %s does not hold on the specification (%s)" % (r.violated, f.tag) if r.violated else
+                    "EEMSCases %s: %s" % (f.tag, r.error or r.rc)) + "\n" + "\n".join(l for l in r.out.split("\n") if "rror" in l or "xception" in l)[:2000] + "\n" + r.out[-1500:]
+        return f
     with open(dump + ".dump") as fh:
         txt = fh.read()
     cases = []
@@ -88,7 +88,10 @@ def gen_families(fams):
     for t in ths:
         t.join()
     for f in fams:
-        if f.tlc is None:
+        if getattr(f, "failed", None):
+            sys.stderr.write("MACHINERY FAILURE: %s\n" % f.failed)
+            sys.exit(2)
+        if f.tlc is None or getattr(f, "cases", None) is None:
             sys.stderr.write("MACHINERY FAILURE: no TLC result for %s\n" % f.tag)
             sys.exit(2)
     return fams
